@@ -30,12 +30,13 @@ def run_history(case, root, ID, ls_after_each=False):
         baseline = {}
         hosts = {}
         for ic in cfg["instances"]:
-            if cfg.get("host") == "repl":
-                from .replhost import ReplHost
+            if cfg.get("host") in ("repl", "run"):
+                from .replhost import ReplHost, RunHost
                 st = cfg["store"]
                 mp = st["paths"][0] if st.get("path_scope") == "session" \
                     and st.get("paths") else None
-                h = ReplHost(sim, ic["name"], ic["secure"], ic["legacy"], mp)
+                h = (RunHost if cfg["host"] == "run" else ReplHost)(
+                    sim, ic["name"], ic["secure"], ic["legacy"], mp)
                 hosts[ic["name"]] = h
                 sim.w.sut_running = True
                 try:
@@ -44,7 +45,7 @@ def run_history(case, root, ID, ls_after_each=False):
                     sim.w.sut_running = False
                 if not ok:
                     raise HarnessError(f"REPL did not start: {h.exc!r}")
-                probes["repl_host"] = 1
+                probes[cfg["host"] + "_host"] = 1
             else:
                 it = sim.new_interpreter(ic["name"], ic["secure"],
                                          ic["legacy"])
@@ -304,8 +305,9 @@ def run_history(case, root, ID, ls_after_each=False):
                 inconclusive = True
                 break
             if out.get("cls") == "ReplDied":
-                V("host-survives", "repl-died",
-                  f"op#{idx} `{src}`: the REPL session ended: {out['msg']} "
+                hk = cfg.get("host", "repl")
+                V("host-survives", hk + "-died",
+                  f"op#{idx} `{src}`: the {hk} host ended: {out['msg']} "
                   f"(the model expected {rec['model']})")
                 break
             if inst in hosts:
@@ -313,16 +315,17 @@ def run_history(case, root, ID, ls_after_each=False):
                 rec["printed"] = pr[:3]
                 if out["kind"] == "val" and out["val"] != "NULL" and \
                         pr[:1] != [out["val"]]:
-                    V("host-prints", "repl-print",
+                    V("host-prints", cfg["host"] + "-print",
                       f"op#{idx} `{src}`: interpret returned {out['val']} "
                       f"but the REPL printed {pr}")
                     break
                 if out["kind"] in ("rt", "syn") and not pr:
-                    V("host-prints", "repl-silent-error",
+                    V("host-prints", cfg["host"] + "-silent-error",
                       f"op#{idx} `{src}` failed ({out}) but the REPL "
                       f"printed nothing")
                     break
-                probes["repl_commands"] = probes.get("repl_commands", 0) + 1
+                pk = cfg["host"] + "_commands"
+                probes[pk] = probes.get(pk, 0) + 1
             if out["kind"] == "budget":
                 V("terminates", "step-budget",
                   f"op#{idx} `{src}` exceeded the step budget")
